@@ -703,6 +703,16 @@ class EvalMixin(InterpBase):
                 o = Obj(v.cls, dict(v.fields))
                 return o
             return v                            # immutable values
+        if isinstance(f, Opaque) and f.what in ("dataclasses:replace", ("dataclasses", "replace")) and len(args) == 1 and isinstance(args[0], Obj):
+            # dataclasses.replace(obj, **changes): a NEW object of the same class, every field handed over as it is (a shallow copy:
+            # lists and other mutable field values are SHARED with the original), the named fields replaced
+            v = args[0]
+            fields = dict(v.fields)
+            for k, x in kwargs.items():
+                if k not in fields:
+                    raise Unsupported(f"dataclasses.replace: no field {k}")
+                fields[k] = x
+            return Obj(v.cls, fields)
         raise Unsupported(f"call of {f!r}")
 
     def call_specdef(self, name, args, fr):
